@@ -45,6 +45,8 @@ func reference(e *env, sc *scenario) (*c20.Reference, []string, []string, error)
 	names := callNames(shape)
 	ref := c20.NewReference()
 	var legend []string
+	e.refMode = true
+	defer func() { e.refMode = false }()
 	for _, order := range merges(shape.threads) {
 		o1, inst := e.runSequential(sc, order)
 		if inst.check != nil {
